@@ -16,6 +16,7 @@ use serde_json::json;
 
 pub fn run_case(ctx: &Ctx, case: u64, ev: &mut Ev) {
     let mut rng = Rng::derive(ctx.seed, "C02", case);
+    rng.big = ctx.tier == crate::Tier::Thorough && rng.chance(0.2);
     if rng.chance(0.7) {
         run::<2>(case, &mut rng, ev);
     } else {
@@ -66,12 +67,12 @@ fn run<const K: usize>(case: u64, rng: &mut Rng, ev: &mut Ev) {
     let m = 1 + rng.below(3);
     let p = 1 + rng.below(3);
     let mut cf = TreeCfg::basic(K, n, m, rg);
-    cf.max_depth = rng.below(4);
+    cf.max_depth = rng.below(if rng.big { 6 } else { 4 });
     cf.allow_leaf_root = true;
     cf.p_missing = if rng.chance(0.4) { 0.25 } else { 0.0 };
     cf.p_contra = if rng.chance(0.3) { 0.4 } else { 0.0 };
     let mut cg = TreeCfg::basic(K, m, p, rg);
-    cg.max_depth = rng.below(4);
+    cg.max_depth = rng.below(if rng.big { 5 } else { 4 });
     cg.allow_leaf_root = true;
     cg.p_missing = if rng.chance(0.4) { 0.25 } else { 0.0 };
     let fs = gen::spec(rng, &cf);
